@@ -193,14 +193,20 @@ func (rec *RecordDefinition) UnmarshalYAML(value *yaml.Node) error {
 // terminate), and a core tag that is given explicitly agrees with the kind of
 // the node (e.g. "!!seq {a: b}" is a mapping, not a sequence).
 func checkYamlDocument(node *yaml.Node, ancestors map[*yaml.Node]bool) error {
-	if node == nil {
+	return checkYamlNode(node, ancestors, make(map[*yaml.Node]bool))
+}
+
+// checked holds the nodes that were found to be fine, so that an anchor is only
+// examined once however often it is referenced.
+func checkYamlNode(node *yaml.Node, ancestors map[*yaml.Node]bool, checked map[*yaml.Node]bool) error {
+	if node == nil || checked[node] {
 		return nil
 	}
 	if node.Kind == yaml.AliasNode {
 		if ancestors[node.Alias] {
 			return parseError(node, "the alias '*%s' refers to an anchor that contains it", node.Value)
 		}
-		return checkYamlDocument(node.Alias, ancestors)
+		return checkYamlNode(node.Alias, ancestors, checked)
 	}
 
 	expectedKind := node.Kind
@@ -219,10 +225,11 @@ func checkYamlDocument(node *yaml.Node, ancestors map[*yaml.Node]bool) error {
 	ancestors[node] = true
 	defer delete(ancestors, node)
 	for _, child := range node.Content {
-		if err := checkYamlDocument(child, ancestors); err != nil {
+		if err := checkYamlNode(child, ancestors, checked); err != nil {
 			return err
 		}
 	}
+	checked[node] = true
 	return nil
 }
 
